@@ -97,14 +97,21 @@ func (g *Generator) FuncToString(f *model.Function) string {
 		}
 	}
 
+	// In the arg style the destination is always a pointer parameter,
+	// whatever the method signature says.
+	manipulatorDst := f.Dst
+	if f.DstVarStyle == model.DstVarArg {
+		manipulatorDst.Pointer = true
+	}
+
 	if f.PreProcess != nil {
-		sb.WriteString(g.ManipulatorToString(f.PreProcess, f.Src, f.Dst, f.AdditionalArgs))
+		sb.WriteString(g.ManipulatorToString(f.PreProcess, f.Src, manipulatorDst, f.AdditionalArgs))
 	}
 	for i := range f.Assignments {
 		sb.WriteString(AssignmentToString(f, f.Assignments[i]))
 	}
 	if f.PostProcess != nil {
-		sb.WriteString(g.ManipulatorToString(f.PostProcess, f.Src, f.Dst, f.AdditionalArgs))
+		sb.WriteString(g.ManipulatorToString(f.PostProcess, f.Src, manipulatorDst, f.AdditionalArgs))
 	}
 	if f.RetError || f.DstVarStyle == model.DstVarReturn {
 		sb.WriteString("\nreturn\n")
